@@ -102,9 +102,9 @@ def fixesOf (n : Nat) : Fixes :=
 def initMachine (k : Kind) : Machine :=
   match k with
   | .k48 => { kind := .k48, pagingEnabled := false, screenBank := 0, map3 := 2,
-              ram := fun _ => patBank 0, rom := fun _ => patBank 0, scr := fun _ => patBank 0 }
+              ram := fun _ => patBank 0, rom := fun n => patBank (0x501 + n), scr := fun _ => patBank 0 }
   | .k128 => { kind := .k128, pagingEnabled := true, screenBank := 5, map3 := 0,
-               ram := fun _ => patBank 0, rom := fun _ => patBank 0, scr := fun _ => patBank 0 }
+               ram := fun _ => patBank 0, rom := fun n => patBank (0x501 + n), scr := fun _ => patBank 0 }
 
 /-- `k=48|128 af= bc= de= hl= afx= bcx= dex= hlx= ix= iy= sp= pc= i= r= iff=<iff1 iff2 as 2 bits>
 im= halt= skip= pfx= mp= q= bd= bdev= lat= banks=<b0,b1,..> (model bank order) ay=<sel>,<16 regs hex>,<14 chip hex>,<enabled>
